@@ -179,6 +179,7 @@ func (st *Stack) reloadOnce(names []string, reuseOpen bool) error {
 
 func (st *Stack) reload(reuseOpen bool) error {
 	var delay time.Duration
+	loaded := false
 	deadline := time.Now().Add(5 * time.Second / 2)
 	for time.Now().Before(deadline) {
 		names, err := st.readNames()
@@ -187,6 +188,7 @@ func (st *Stack) reload(reuseOpen bool) error {
 		}
 		err = st.reloadOnce(names, reuseOpen)
 		if err == nil {
+			loaded = true
 			break
 		}
 		if !os.IsNotExist(err) {
@@ -203,6 +205,9 @@ func (st *Stack) reload(reuseOpen bool) error {
 
 		// compaction changed name
 		delay = time.Millisecond*time.Duration(1+rand.Intn(1)) + 2*delay
+	}
+	if !loaded {
+		return errors.New("reftable: reload timed out: tables kept changing")
 	}
 
 	var tabs []Table
